@@ -1,3 +1,4 @@
+mod chunk;
 mod depth;
 mod detect;
 mod enc_replay;
@@ -36,6 +37,7 @@ fn main() {
         "total-gen" => total::gen(&arg(2), &arg(3), num(4, 200)),
         "total-worker" => total::worker(),
         "lib-table" => libtable::run(&arg(2)),
+        "record-chunker" => chunk::record(&arg(2), num(3, 20)),
         "record-detect" => detect::record(&arg(2), num(3, 50)),
         "record-mem" => {
             let sizes: Vec<usize> = arg(4).split(',').filter_map(|s| s.parse().ok()).collect();
